@@ -7,6 +7,7 @@ import (
 	"fmt"
 	"math/rand"
 	"os"
+	"regexp"
 	"sort"
 	"strings"
 	"sync"
@@ -218,6 +219,14 @@ type sysRun struct {
 	failed    string
 
 	// second configuration: Scheduler over NewVolatileTaskRepo(CronStore)
+	workers       int
+	dp            *dproxy
+	waitingWorker bool   // Step / Retry is inside Dispatch, every worker is busy
+	lastCallId    string // id of the scheduler's latest MarkAsDispatched / GetById
+	lastGetState  string // state of the task the latest GetById returned
+	announcedId   string // id of the task the latest Step announced (NextTask)
+	inRetry       bool
+
 	vmode bool
 	scrib bool
 	ended bool
@@ -394,6 +403,22 @@ func (s *sysRun) workFn(kind string) *def.WorkFn {
 
 type panicString string
 
+var taskStateRe = regexp.MustCompile(`\(RTask \(mkTask "[^"]*" "[^"]*" \(?-?\d+\)? (\w+) `)
+
+// dproxy announces every Dispatch to the harness before it is made: with every worker busy the dispatch will wait for a
+// worker, and the harness may then free one (finish a run) or cancel the waiting dispatch.
+type dproxy struct {
+	inner def.Dispatcher
+	enter chan chan struct{}
+}
+
+func (d *dproxy) Dispatch(ctx context.Context, fetcher func(ctx context.Context) (def.Task, error)) (<-chan error, error) {
+	g := make(chan struct{})
+	d.enter <- g
+	<-g
+	return d.inner.Dispatch(ctx, fetcher)
+}
+
 func newSysRun(r *rand.Rand, stats map[string]int, faults bool) *sysRun {
 	s := &sysRun{r: r, stats: stats, now: cq.Epoch, gates: map[string]chan struct{}{}, workOf: map[string]string{},
 		starts: make(chan workStart, 16), startReqs: make(chan startReq, 64), running: map[string]bool{}, accepted: map[string]bool{},
@@ -409,8 +434,11 @@ func newSysRun(r *rand.Rand, stats map[string]int, faults bool) *sysRun {
 	s.proxy = &sproxy{inner: s.obs, faulty: fr, calls: make(chan *callReq), fireCh: make(chan time.Time)}
 	reg := mapRegistry{"ok": s.workFn("ok"), "err": s.workFn("err"), "panic": s.workFn("panic"), "block": s.workFn("block"), "dl": s.workFn("dl")}
 	s.disp = workerpool.NewWorkerPoolDispatcher(reg)
-	s.disp.WorkerPool.Add(16)
-	s.sched = scheduler.NewScheduler(s.proxy, s.disp)
+	// every worker count: mostly plenty, sometimes one or two so that dispatches have to wait for a worker
+	s.workers = []int{16, 1, 1, 2}[r.Intn(4)]
+	s.disp.WorkerPool.Add(s.workers)
+	s.dp = &dproxy{inner: s.disp, enter: make(chan chan struct{})}
+	s.sched = scheduler.NewScheduler(s.proxy, s.dp)
 	s.sched.VerifSetClock(s.clock)
 	s.timerCh = s.obs.TimerChannel
 	go s.sched.RunQueue(context.Background())
@@ -449,8 +477,10 @@ func newVSysRun(r *rand.Rand, stats map[string]int, scrib bool) *sysRun {
 	s.proxy = &sproxy{inner: vrepo, calls: make(chan *callReq), fireCh: make(chan time.Time)}
 	reg := mapRegistry{"ok": s.workFn("ok"), "err": s.workFn("err"), "panic": s.workFn("panic"), "block": s.workFn("block"), "dl": s.workFn("dl")}
 	s.disp = workerpool.NewWorkerPoolDispatcher(reg)
-	s.disp.WorkerPool.Add(16)
-	s.sched = scheduler.NewScheduler(s.proxy, s.disp)
+	s.workers = 16
+	s.disp.WorkerPool.Add(s.workers)
+	s.dp = &dproxy{inner: s.disp, enter: make(chan chan struct{})}
+	s.sched = scheduler.NewScheduler(s.proxy, s.dp)
 	s.sched.VerifSetClock(s.clock)
 	s.timerCh = store.TimerChannel
 	go s.sched.RunQueue(context.Background())
@@ -580,6 +610,7 @@ func (s *sysRun) beginStep() {
 		s.prevState = nil
 		s.log("LRetryBegin " + stateTerm(prev))
 		s.stats["driver:retry"]++
+		s.inRetry = true
 		go func() {
 			st, re := s.sched.Retry(ctx, prev)
 			s.stepDone <- stepOutcome{st, true, re}
@@ -588,6 +619,7 @@ func (s *sysRun) beginStep() {
 	}
 	s.log("LStepBegin")
 	s.stats["driver:step"]++
+	s.inRetry = false
 	go func() { s.stepDone <- stepOutcome{st: s.sched.Step(ctx)} }()
 }
 
@@ -631,7 +663,19 @@ func (s *sysRun) outstanding() int { return len(s.running) + len(s.accepted) }
 // progress: the Step goroutine is able to move: wait for its next call or for its return
 func (s *sysRun) progress() {
 	select {
+	case g := <-s.dp.enter:
+		// the scheduler goroutine enters Dispatch: with every worker busy it will wait there
+		if s.outstanding() >= s.workers {
+			s.waitingWorker = true
+			s.stats["driver:dispatch-waits-for-worker"]++
+		}
+		close(g)
 	case req := <-s.proxy.calls:
+		if req.kind == "markdisp" || req.kind == "getbyid" {
+			if i := strings.Index(req.term, "\""); i >= 0 {
+				s.lastCallId = strings.TrimSuffix(req.term[i+1:], "\")")
+			}
+		}
 		if s.inSelect {
 			s.inSelect = false
 			if req.kind == "markdone" {
@@ -641,6 +685,12 @@ func (s *sysRun) progress() {
 		g := s.chooseFault(req.kind)
 		req.grant <- g
 		ret := <-req.done
+		if req.kind == "getbyid" {
+			s.lastGetState = ""
+			if m := taskStateRe.FindStringSubmatch(ret); m != nil {
+				s.lastGetState = m[1]
+			}
+		}
 		f := []string{"FNone", "FBefore", "FAfter"}[g.fault]
 		s.log("LCall " + req.term + " " + f + " " + cq.Bool(g.hfault) + " " + ret)
 		if req.kind == "timerch" {
@@ -648,10 +698,17 @@ func (s *sysRun) progress() {
 		}
 	case out := <-s.stepDone:
 		wasSelect := s.inSelect
-		s.stepActive, s.inSelect = false, false
+		s.stepActive, s.inSelect, s.waitingWorker = false, false, false
 		s.log("LStepEnd " + stateTerm(out.st) + " " + cq.Bool(out.retryErr))
 		if wasSelect && out.st.State() == scheduler.TaskDone {
 			s.queued-- // the cancelled-run branch of select
+		}
+		if out.st.State() == scheduler.NextTask && out.st.Err() == nil {
+			_ = out.st.Match(scheduler.StepResultHandler{
+				TimerUpdateError: func(error) error { return nil }, AwaitingNext: func(error) error { return nil },
+				NextTask: func(t def.Task, _ error) error { s.announcedId = t.Id; return nil }, DispatchErr: func(def.Task, error) error { return nil },
+				Dispatched: func(string) error { return nil }, TaskDone: func(string, error, error) error { return nil },
+			})
 		}
 		if id, ok := dispatchedId(out.st); ok {
 			s.stepCancel[id] = s.curCancel
@@ -744,6 +801,9 @@ func (s *sysRun) finishOne() bool {
 		close(g)
 	}
 	delete(s.running, id)
+	if s.waitingWorker && s.outstanding() < s.workers {
+		s.waitingWorker = false
+	}
 	s.waitReserved(s.outstanding())
 	s.queued++
 	s.stats["work:"+w]++
@@ -756,10 +816,38 @@ func (s *sysRun) canProceed() bool {
 	if !s.stepActive {
 		return false
 	}
+	if s.waitingWorker {
+		return false
+	}
 	if !s.inSelect {
 		return true
 	}
 	return s.queued > 0
+}
+
+// parked: the scheduler goroutine is not running and will not run by itself (idle, at its select, or waiting for a worker)
+func (s *sysRun) parked() bool { return !s.stepActive || s.inSelect || s.waitingWorker }
+
+// cancelWaiting: the driver gives up the Step / Retry whose dispatch is waiting for a worker. For the scheduler this is a
+// dispatch that failed without effect after MarkAsDispatched: the same transition as a fetch that failed before taking
+// effect, which is how it is put to the model.
+func (s *sysRun) cancelWaiting() bool {
+	if !s.waitingWorker {
+		return false
+	}
+	s.curCancel()
+	s.stats["driver:cancel-waiting-dispatch"]++
+	// MarkAsDispatched and GetById are both made by the worker that takes the dispatch: none has happened yet
+	switch {
+	case !s.inRetry:
+		s.log("LCall (CMarkDisp " + cq.Str(s.announcedId) + ") FBefore false (RRes (RErr EOther))")
+	case s.lastGetState == "Dispatched":
+		s.log("LCall (CGetById " + cq.Str(s.lastCallId) + ") FBefore false (RRes (RErr EOther))")
+	default:
+		s.log("LCall (CMarkDisp " + cq.Str(s.lastCallId) + ") FBefore false (RRes (RErr EOther))")
+	}
+	s.progress()
+	return true
 }
 
 // deliverFire: Step's select receives the pending fire (only offered when no result is queued, so that the
@@ -807,7 +895,10 @@ func (s *sysRun) run(length int) {
 		} else if s.r.Intn(3) != 0 && s.deliverFire() {
 			continue
 		}
-		if len(s.pendStart) > 0 && s.r.Intn(3) != 0 && !(s.stepActive && !s.inSelect) {
+		if s.waitingWorker && s.r.Intn(3) == 0 && s.cancelWaiting() {
+			continue
+		}
+		if len(s.pendStart) > 0 && s.r.Intn(3) != 0 && s.parked() {
 			s.grantStart()
 			continue
 		}
@@ -819,7 +910,7 @@ func (s *sysRun) run(length int) {
 		case x < 62:
 			// results may only be produced while the scheduler goroutine is parked (at select or not running),
 			// so that the harness' view of the result queue is exact
-			if s.stepActive && !s.inSelect {
+			if !s.parked() {
 				s.progress()
 			} else if !s.finishOne() {
 				s.userOp()
